@@ -139,6 +139,7 @@ func (c *Ctx) Inconclusive(why string) {
 	}
 	c.res.Outcome = "inconclusive"
 	c.res.Message = why
+	c.res.Probes["inconclusive:"+why+"|"+c.Spec.Family+"|"+c.Spec.Policy.Kind]++
 }
 
 func (c *Ctx) Probe(name string) { c.res.Probes[name]++ }
@@ -283,13 +284,27 @@ func SwarmPolicy(g *Gen) simsync.PolicyConfig {
 		p.Kind, p.Eps = "eps", 0.3
 	case 6, 7:
 		p.Kind, p.Depth, p.Len = "pct", g.Int(1, 3), g.Pick(500, 3000, 20000)
-	default:
+	case 8:
 		p.Kind, p.HotPct, p.HotHold, p.Eps = "hot", g.Pick(2, 5, 10), g.Pick(5, 20, 60), 0.003
+	default:
+		if g.Bool(0.5) {
+			p.Kind, p.HotPct, p.HotHold, p.Eps = "park", g.Pick(1, 3, 10), g.Pick(300, 3000, 30000), 0.001
+		} else {
+			p = Pre1Policy(g, p)
+		}
 	}
 	p.NetEarly = []float64{0, 0.01, 0.1, 0.4}[g.Rng.IntN(4)]
 	if g.Bool(0.2) {
 		p.Stall = 0.002
 	}
+	return p
+}
+
+// Pre1Policy: one long preemption of each system task at a chosen yield ordinal
+// (small ordinals are the most likely: background passes are short).
+func Pre1Policy(g *Gen, p simsync.PolicyConfig) simsync.PolicyConfig {
+	p.Kind, p.PreSys, p.HotHold = "pre1", g.Bool(0.7), g.Pick(300, 3000, 30000)
+	p.PreAt = g.Pick(g.Int(0, 12), g.Int(0, 40), g.Int(0, 200), g.Int(0, 2000))
 	return p
 }
 
